@@ -97,3 +97,22 @@ Example C16_convert_nonvacuous :
             s_ksigs (c_seq c) = [mkKsig 0 1 KS_MINOR] /\ c_infos c = [mkInfo 0 [112; 105]].
 Proof. exact convert_nonvacuous. Qed.
 Print Assumptions C16_convert_nonvacuous.
+
+(** Order-independence of the correspondence for constructed objects (false alarm C03-h1):
+    whatever either variant of the conversion raises is in the order-independent set
+    [exn_possible]; an empty set means success; and on every object satisfying the range
+    invariant (all that byte strings parse to) no foreign class is possible at all. *)
+Theorem C16_convert_error_in_possible_set : forall fixed m e,
+  convert_gen fixed m = Err e -> exn_possible m e = true.
+Proof. exact convert_err_possible. Qed.
+Print Assumptions C16_convert_error_in_possible_set.
+
+Theorem C16_nothing_possible_means_success : forall fixed m,
+  can_mce m = false -> can_value m = false -> can_unicode m = false -> exists c, convert_gen fixed m = Ok c.
+Proof. exact convert_ok_when_nothing_possible. Qed.
+Print Assumptions C16_nothing_possible_means_success.
+
+Theorem C16_range_invariant_excludes_foreign_classes : forall m,
+  pm_rangeb m = true -> INT32_MIN <= pm_res m -> can_value m = false /\ can_unicode m = false.
+Proof. exact pm_rangeb_no_foreign_possible. Qed.
+Print Assumptions C16_range_invariant_excludes_foreign_classes.
